@@ -6,6 +6,7 @@ The conversion *accuracy* clauses (two ulps, monotone, round-trip bound) are abo
 proved here (see `partial` in the evidence); what is proved is which expression is computed.
 -/
 import Rrtk.Core
+import Rrtk.Thm.Lemmas.C18Rounding
 set_option linter.unusedSectionVars false
 namespace Rrtk.Thm.C18
 open Rrtk
